@@ -45,6 +45,10 @@ func c16Universe(variant int) *built {
 	case 5: // acyclic, and the entry schema declares an absolute id on the root's scheme and host
 		g.Edges = []gedge{{0, 1, formProperties, spShort}}
 		g.IDs = []string{"file:///r/ids/n.json", ""}
+	case 6: // everything inside the root document, which also holds a parameter / response that is a $ref to one of its own
+		g.Place = []int{0, 0}
+		g.Edges = []gedge{{0, 1, formProperties, spShort}, {1, 0, formItems, spShort}, {1, 1, formAllOf, spShort}}
+		g.LocalRefs = true
 	case 4: // everything inside the root document
 		g.Place = []int{0, 0}
 		g.Edges = []gedge{{0, 1, formProperties, spShort}, {1, 0, formItems, spShort}, {1, 1, formAllOf, spShort}}
